@@ -26,6 +26,7 @@ Qkv == <<[k |-> <<"k">>, v |-> <<"v">>]>>
 QKV == <<[k |-> <<"K">>, v |-> <<"V">>]>>
 Qkx == <<[k |-> <<"k">>, v |-> <<"x">>]>>
 Qkxkv == <<[k |-> <<"k">>, v |-> <<"x">>], [k |-> <<"k">>, v |-> <<"v">>]>>
+Qkvkx == <<[k |-> <<"k">>, v |-> <<"v">>], [k |-> <<"k">>, v |-> <<"x">>]>>   \* first and "any" readings agree here; a "last value" reading does not
 Qjkv == <<[k |-> <<"j">>, v |-> <<"1">>], [k |-> <<"k">>, v |-> <<"v">>]>>
 Qk_  == <<[k |-> <<"k">>, v |-> <<>>]>>
 Qkvj == <<[k |-> <<"k">>, v |-> <<"v">>], [k |-> <<"j">>, v |-> <<"2">>]>>
@@ -33,7 +34,7 @@ Qkvj == <<[k |-> <<"k">>, v |-> <<"v">>], [k |-> <<"j">>, v |-> <<"2">>]>>
 Callers == { [user |-> "alice", groups |-> {"g1"}, proc |-> "p", exe |-> "/bin/p"],
              [user |-> "bob", groups |-> {"g1", "g2"}, proc |-> "q", exe |-> "/bin/q"],
              [user |-> "carol", groups |-> {}, proc |-> "p", exe |-> "/bin/p"] }
-Urls == [path : {P_a, P_Ab, P_ab2, P_c, P_root}, q : {Q0, Qkv, QKV, Qkx, Qkxkv, Qjkv, Qk_}]
+Urls == [path : {P_a, P_Ab, P_ab2, P_c, P_root}, q : {Q0, Qkv, QKV, Qkx, Qkxkv, Qkvkx, Qjkv, Qk_}]
 
 Modes == {"disabled", "audit", "enforce"}
 
